@@ -197,3 +197,104 @@ Proof.
   - eapply Forall2_impl2; [|exact H6]. cbn. intros p p' _ E Hn.
     unfold hidden, reason_named in *. rewrite E, hidden_to_proto_unnamed by lia. cbn. tauto.
 Qed.
+
+(* ================================================================== histories *)
+Lemma cache_find_fresh k c n :
+  (forall k' v, In (k', v) c -> ck_nh k' < n) -> n <= ck_nh k -> cache_find k c = None.
+Proof.
+  intros Hc Hk. induction c as [|[k' v] c IH]; cbn [cache_find]; [reflexivity|].
+  assert (E : ckey_eqb k' k = false).
+  { unfold ckey_eqb. assert (ck_nh k' < n) by (eapply Hc; left; reflexivity).
+    assert (E1 : (ck_nh k' =? ck_nh k) = false) by (apply N.eqb_neq; lia).
+    rewrite E1. reflexivity. }
+  rewrite E. apply IH. intros k'' v' Hin. eapply Hc. right. exact Hin.
+Qed.
+
+Lemma heap_ok_empty : heap_ok empty_heap.
+Proof. intros k v []. Qed.
+
+(* the attribute cache never hits on the way back from the API: the conversion is the stateless one *)
+Lemma bgp_from_proto_h_stateless dd pb h : heap_ok h ->
+  fst (bgp_from_proto_h dd pb h) = bgp_from_proto pb /\ heap_ok (snd (bgp_from_proto_h dd pb h)).
+Proof.
+  intros Hh. destruct pb as [x|]; [|split; [reflexivity|exact Hh]].
+  unfold bgp_from_proto_h, bgp_from_proto, hbind, ip_ptr_from_proto.
+  destruct (ip_from_proto (ab_nexthop x)) as [nh|]; cbn [bind fst snd h_next h_cache]; [|split; [reflexivity|exact Hh]].
+  destruct (ip_from_proto (ab_source x)) as [src|]; cbn [bind fst snd h_next h_cache].
+  2:{ split; [reflexivity|]. intros k v Hin. cbn in *. apply Hh in Hin. lia. }
+  destruct dd.
+  - unfold cache_get. cbn [h_cache h_next].
+    rewrite (cache_find_fresh _ (h_cache h) (h_next h)); [|exact Hh|cbn; lia].
+    cbn [fst snd]. split; [reflexivity|].
+    intros k v [E|Hin]; cbn [h_next].
+    + inversion E. subst k. cbn. lia.
+    + apply Hh in Hin. lia.
+  - cbn [fst snd]. split; [reflexivity|].
+    intros k v Hin. cbn in *. apply Hh in Hin. lia.
+Qed.
+
+Lemma path_from_proto_h_stateless dd ap h : heap_ok h ->
+  fst (path_from_proto_h dd ap h) = path_from_proto ap /\ heap_ok (snd (path_from_proto_h dd ap h)).
+Proof.
+  intros Hh. unfold path_from_proto_h, path_from_proto.
+  destruct (ap_type ap =? Path_BGP).
+  - unfold hbind. destruct (bgp_from_proto_h_stateless dd (ap_bgp ap) h Hh) as [E1 E2].
+    destruct (bgp_from_proto_h dd (ap_bgp ap) h) as [[b|] h']; cbn [fst snd] in *; rewrite <- E1;
+      cbn; auto.
+  - destruct (ap_type ap =? Path_Static); cbn; auto.
+Qed.
+
+Lemma mapM_h_stateless dd l : forall h, heap_ok h ->
+  fst (mapM_h (path_from_proto_h dd) l h) = mapM path_from_proto l /\
+  heap_ok (snd (mapM_h (path_from_proto_h dd) l h)).
+Proof.
+  induction l as [|ap l IH]; intros h Hh; cbn [mapM_h mapM].
+  - cbn. auto.
+  - unfold hbind. destruct (path_from_proto_h_stateless dd ap h Hh) as [E1 E2].
+    destruct (path_from_proto_h dd ap h) as [[p|] h1]; cbn [fst snd] in *; rewrite <- E1; cbn [bind].
+    + destruct (IH h1 E2) as [F1 F2].
+      destruct (mapM_h (path_from_proto_h dd) l h1) as [[ps|] h2]; cbn [fst snd] in *; rewrite <- F1;
+        cbn; auto.
+    + auto.
+Qed.
+
+Theorem from_proto_h_stateless dd ar h : heap_ok h ->
+  fst (from_proto_h dd ar h) = from_proto ar /\ heap_ok (snd (from_proto_h dd ar h)).
+Proof.
+  intros Hh. unfold from_proto_h, from_proto.
+  destruct (prefix_from_proto (ar_pfx ar)) as [pf|]; cbn [bind]; [|auto].
+  unfold hbind. destruct (mapM_h_stateless dd (ar_paths ar) h Hh) as [E1 E2].
+  destruct (mapM_h (path_from_proto_h dd) (ar_paths ar) h) as [[ps|] h1]; cbn [fst snd] in *;
+    rewrite <- E1; cbn; auto.
+Qed.
+
+Lemma roundtrip_h_stateless dd r h : heap_ok h ->
+  fst (roundtrip_h dd r h) = roundtrip r /\ heap_ok (snd (roundtrip_h dd r h)).
+Proof.
+  intros Hh. unfold roundtrip_h, roundtrip. destruct (to_proto r) as [ar|]; cbn [bind]; [|auto].
+  apply from_proto_h_stateless, Hh.
+Qed.
+
+(* every conversion of every history returns what the conversion alone returns *)
+Theorem run_history_stateless l : forall h, heap_ok h ->
+  run_history h l = map (fun rd => roundtrip (fst rd)) l.
+Proof.
+  induction l as [|[r dd] l IH]; intros h Hh; cbn [run_history map fst]; [reflexivity|].
+  destruct (roundtrip_h_stateless dd r h Hh) as [E1 E2].
+  destruct (roundtrip_h dd r h) as [res h']. cbn [fst snd] in *. rewrite E1, (IH h' E2). reflexivity.
+Qed.
+
+(* the round trip in any history: whatever was converted before, with or without dedup *)
+Theorem roundtrip_history l h : heap_ok h -> Forall (fun rd => wf_route (fst rd)) l ->
+  Forall2 (fun rd res => exists r', res = Ok r' /\ r_pfx r' = r_pfx (fst rd) /\
+                                    Forall2 path_agree (r_paths (fst rd)) (r_paths r') /\
+                                    Forall2 (fun p p' => reason_named p -> p_hidden p' = p_hidden p)
+                                            (r_paths (fst rd)) (r_paths r'))
+          l (run_history h l).
+Proof.
+  intros Hh Hwf. rewrite (run_history_stateless l h Hh).
+  induction Hwf as [|[r dd] l Hr Hl IH]; cbn [map]; constructor; auto.
+  cbn [fst] in *. destruct (roundtrip_preserves r Hr) as (ar & r' & H1 & H2 & H3 & H4 & _ & H6).
+  exists r'. unfold roundtrip. rewrite H1. cbn [bind]. repeat split; auto.
+  eapply Forall2_impl2; [|exact H6]. cbn. intros p p' _ E Hn. rewrite E. now apply hidden_roundtrip.
+Qed.
